@@ -410,7 +410,10 @@ def nfcmp (st : State) (decl item sx : String) (terms : Bool := false) : State Ã
           let probe := fun (e : Expr) => match e with
             | .assertE _ b => (Nf.nf { ctx with index := some 0 } ({ ctx with index := some 0 } : Nf.Ctx).init b).isSome
             | e => (Nf.nf ctx ctx.init e).isSome
-          (st', [s!"nfres {decl} {item} {if probe a && probe m then "differ" else "unknown"}"])
+          let wit := match Nf.bodiesWitness ctx a m with
+            | some (i, r, v) => [s!"nfwitness {decl} {item} idx={match i with | some i => toString i | none => "-"} raw={toHex r} val={toHex v}"]
+            | none => []
+          (st', [s!"nfres {decl} {item} {if probe a && probe m then "differ" else "unknown"}"] ++ wit)
   | _ => (st, [s!"nfres {decl} {item} nodecl"])
 
 /-- the emitted body registered for an item, evaluated like the model's -/
